@@ -647,8 +647,10 @@ def run_n12(chk, repo):
     if branch is None or not nonfixed:
         raise AnalysisError(f'N12: branch for type "iiv" / non-fixed parameter list of calculate_bic not found ({sorted(nonfixed)})')
     deps = lints.dependence(branch)
-    pen = [a for s_ in branch for a in ast.walk(s_) if isinstance(a, ast.Assign) and isinstance(a.targets[0], ast.Name)
-           and a.targets[0].id == 'penalty']
+    # what the branch contributes: its last top-level assignment (whatever the variable is called) or its return value
+    pen = [a for a in branch if isinstance(a, ast.Assign) and isinstance(a.targets[0], ast.Name)][-1:] or \
+          [ast.Assign(targets=[ast.Name(id='<returned>', ctx=ast.Store())], value=r_.value, lineno=r_.lineno)
+           for r_ in branch if isinstance(r_, ast.Return) and r_.value is not None][-1:]
     if not pen:
         raise AnalysisError('N12: penalty of the iiv branch not found')
     used = lints.closure(deps, {x.id for x in ast.walk(pen[-1].value) if isinstance(x, ast.Name)})
